@@ -211,10 +211,22 @@ def from_conditions():
         ('payee~o OR year=2021', ast.Or([ast.Match(Cl('payee'), Cn('o')), ast.Equal(Cl('year'), Cn(2021))]),
          lambda e: True if (e.payee is not None and 'o' in e.payee.lower()) or e.date.year == 2021 else (None if e.payee is None else False)),
     ]
+    D = __import__('decimal').Decimal
     wheres = [
         ('none', None, lambda p: True),
         ('number>0', ast.Greater(Cl('number'), Cn(0)), lambda p: p.units.number > 0),
         ('account~cash', ast.Match(Cl('account'), Cn('cash')), lambda p: 'cash' in p.account.lower()),
+        # WHERE conditions whose ROOT is OR / AND / NOT / COALESCE / IS NULL (the FROM condition is AND-ed with the
+        # WHERE condition as a whole, whatever its outermost operator is)
+        ('cash OR number>50', ast.Or([ast.Match(Cl('account'), Cn('cash')), ast.Greater(Cl('number'), Cn(50))]),
+         lambda p: 'cash' in p.account.lower() or p.units.number > 50),
+        ('bank AND number<0', ast.And([ast.Match(Cl('account'), Cn('bank')), ast.Less(Cl('number'), Cn(0))]),
+         lambda p: 'bank' in p.account.lower() and p.units.number < 0),
+        ('NOT cash', ast.Not(ast.Match(Cl('account'), Cn('cash'))), lambda p: 'cash' not in p.account.lower()),
+        ('coalesce(cost_number>0, number<0)', Fn('coalesce', [ast.Greater(Cl('cost_number'), Cn(0)), ast.Less(Cl('number'), Cn(0))]),
+         lambda p: (p.cost.number > 0) if p.cost is not None else (p.units.number < 0)),
+        ('three-way OR', ast.Or([ast.Equal(Cl('number'), Cn(D('20.00'))), ast.Match(Cl('account'), Cn('food')), ast.IsNotNull(Cl('cost_number'))]),
+         lambda p: p.units.number == 20 or 'food' in p.account.lower() or p.cost is not None),
     ]
     return conds, wheres
 
